@@ -20,7 +20,7 @@ PROPS = {
     "C02": {"tie": [], "l1": _l1(["mixed", "hazard", "workflow"], 150, 6000),
             "l1_nontrivial": ["updates>=2blocks"],
             "rule": _HIST % "mixed,hazard,workflow" + "non-trivial = validator updates in >= 2 blocks; distinct by history term",
-            "assumptions": ["H-time, H-alive, H-maxvals of DESIGN.md App. A are respected by the generators", "known finding: max_validators binding at admission (C02/...:max-validators-binding)"]},
+            "assumptions": ["H-time, H-alive, H-evidence, H-maxvals of DESIGN.md App. A are respected by the generators", "known finding: max_validators binding at admission (C02/...:max-validators-binding)"]},
     "C03": {"tie": [], "l1": _l1(["mixed", "hazard", "workflow"], 150, 6000),
             "l1_nontrivial": ["same-block-repeat"],
             "rule": _HIST % "mixed,hazard,workflow" + "non-trivial = some validator targeted twice in one block; distinct by history term",
@@ -28,7 +28,7 @@ PROPS = {
     "C04": {"tie": [], "l1": _l1(["hazard", "mixed", "malformed"], 150, 6000),
             "l1_nontrivial": ["maturity"],
             "rule": _HIST % "hazard,mixed,malformed" + "non-trivial = history crosses an unbonding maturity; distinct by history term",
-            "assumptions": ["environment hypotheses H-time (two block intervals < unbonding time), H-alive (downtime never jails the whole upcoming set), H-maxvals (max_validators <= 1000)"]},
+            "assumptions": ["environment hypotheses H-time (two block intervals < unbonding time), H-alive (downtime jailing and double-sign punishment never take the whole upcoming set), H-evidence (evidence names a validator whose record the chain still has, of a height not in the future), H-maxvals (max_validators <= 1000)"]},
     "C05": {"tie": [], "l1": _l1(["boundary", "workflow", "mixed"], 150, 6000),
             "l1_nontrivial": ["op:setpower", "out:setpower:err 0 4", "out:setpower:pass"],
             "rule": _HIST % "boundary,workflow,mixed" + "powers chosen at floor(0.3T)-1, floor(0.3T), +1 of the tracked total; non-trivial = history has both an accepted and a limit-refused SetPower; distinct by history term",
@@ -60,7 +60,8 @@ PROPS = {
     "C13": {"tie": [], "l1": _l1(["hazard", "mixed"], 150, 6000),
             "l1_nontrivial": ["jailing", "op:unjail"],
             "rule": _HIST % "hazard,mixed" + "non-trivial = history has a jailing and an unjail attempt; distinct by history term",
-            "assumptions": ["H-alive: downtime never jails the whole upcoming validator set"]},
+            "assumptions": ["H-alive: downtime jailing and double-sign punishment never take the whole upcoming validator set",
+                            "H-evidence: an evidence entry names a validator whose record the chain still has, of a height that is not in the future"]},
     "C14": {"tie": [], "pure_kinds": ["setpower"], "pure_n": {"quick": 5000, "thorough": 200000}, "l1": _l1(["malformed", "boundary"], 80, 1600),
             "rule": "MsgSetPower.Validate on boundary and random 64-bit powers x valid/invalid addresses (non-trivial = valid address and power >= 999999; distinct by (address class, power)); L1 read-back of tokens/shares/delegation/update power on histories with extreme powers",
             "assumptions": []},
@@ -86,18 +87,18 @@ _NOTE = ("Trusted: Coq 8.16.1 kernel + vm_compute; the hand-written Gallina mode
 LEVELS = {
     "C01": {"text": "Theorems: every gated handler returns not-an-authority for any sender but the admin (self-removal excepted, only for a bonded validator that leaves a signer behind); through the tx wrapper the state is unchanged. Model tied to the app by history differential + twin execution; RPC census by Tie/Census.v.", "note": _NOTE, "technique": "Coq proof (case analysis on the handlers, tx-wrapper lemma) + differential testing against the real SimApp"},
     "C02": {"text": "Theorems at every reachable, non-halted state (induction over the block list through every handler, BeginBlock slashing, both EndBlocker loops, maturity, genesis): CometBFT's next set = last validator powers keyed by consensus key; every member is an unjailed bonded validator at tokens/10^6 > 0 (no hypothesis on max_validators); when max_validators does not bind the set is exactly the unjailed validators with power; index exact and complete; consensus keys distinct. Tied to the app by history differential; monitor = real UpdateWithChangeSet set vs bonded+unjailed validators with the power query.", "note": _NOTE + " Partial: the cap-binding case is a known finding, not covered by the theorem.", "technique": "Coq proof by induction over histories of an inductive invariant + differential testing against the real SimApp"},
-    "C03": {"text": "Theorems: a successful SetPOAPower writes exactly the requested tokens/shares/delegation and re-keys exactly the target's index entry; frame lemma for every other validator; history level: the last power of every validator is the power of its tokens if it is not jailed (cap not binding), every update of a block belongs to a validator whose last power changes in that block and says what it becomes, hence only validators whose jailed flag or tokens changed in the block are mentioned. Monitors: SetPower reflected in the next set, removed stays out, updates only for targets/jailed/unjailed/cap, non-targets unchanged.", "note": _NOTE, "technique": "Coq proof (gmap frame lemmas) + differential testing against the real SimApp"},
-    "C04": {"text": "Theorems over all histories: chain invariant, unbonding-queue invariant and pool invariant hold in every reachable state; x/staking's EndBlocker returns no error of any kind; CometBFT never refuses the updates for a duplicate key, a negative power, the removal of a non-member, nor (if downtime leaves somebody: H-alive) an empty set; BeginBlock never fails if a block interval is shorter than the unbonding period (H-time); the total power stays within CometBFT's bound for key pools up to 125000; altogether no history halts; last-bonded guard. Tied to the app by history differential incl. maturities; monitor = real FinalizeBlock errors + real UpdateWithChangeSet verdict.", "note": _NOTE + " Environment hypotheses H-time, H-alive, H-maxvals are explicit.", "technique": "Coq proof (loop invariant of ApplyAndReturnValidatorSetUpdates) + differential testing against the real SimApp and CometBFT's ValidatorSet"},
+    "C03": {"text": "Theorems: a successful SetPOAPower writes exactly the requested tokens/shares/delegation and re-keys exactly the target's index entry; frame lemma for every other validator; history level: the last power of every validator is the power of its tokens if it is not jailed (cap not binding), every update of a block belongs to a validator whose last power changes in that block and says what it becomes, hence only validators whose jailed flag or tokens changed in the block are mentioned; through any number of later blocks that carry no SetPower / RemoveValidator / Unjail naming it, a validator's key, jailed flag, tokens, shares and self-delegation are kept (or slashing jailed it on the way), and with the cap not binding so is its power: a removed validator never returns unless the admin re-admits it. Monitors: SetPower reflected in the next set, removed stays out, updates only for targets/jailed/unjailed/cap, non-targets unchanged.", "note": _NOTE, "technique": "Coq proof (gmap frame lemmas) + differential testing against the real SimApp"},
+    "C04": {"text": "Theorems over all histories: chain invariant, unbonding-queue invariant and pool invariant hold in every reachable state; x/staking's EndBlocker returns no error of any kind; CometBFT never refuses the updates for a duplicate key, a negative power, the removal of a non-member, nor (if downtime leaves somebody: H-alive) an empty set; BeginBlock (x/distribution's voter lookup, x/slashing's downtime accounting, x/evidence's double-sign handling) never fails if a block interval is shorter than the unbonding period (H-time) and evidence names validators the chain still knows (H-evidence; the signing info x/evidence insists on is proved to exist); the total power stays within CometBFT's bound for key pools up to 125000; altogether no history halts; last-bonded guard. Tied to the app by history differential incl. maturities; monitor = real FinalizeBlock errors + real UpdateWithChangeSet verdict.", "note": _NOTE + " Environment hypotheses H-time, H-alive, H-evidence, H-maxvals are explicit.", "technique": "Coq proof (loop invariant of ApplyAndReturnValidatorSetUpdates) + differential testing against the real SimApp and CometBFT's ValidatorSet"},
     "C05": {"text": "Theorems: safe SetPower above height 1 succeeds only if 100*sum < 30*cached (uint64 arithmetic written out); every change adds |new - power held at that point|; BeginBlocker zeroes the sum and refreshes the total; failed txs roll back (C06); unsafe skips only the test; history level: LastTotalPower = sum of the last validator powers in every reachable state, and throughout a block the cached total is that sum as the previous block left it.", "note": _NOTE, "technique": "Coq proof (lia over Z with explicit wrap) + differential testing with boundary powers against the real SimApp"},
     "C06": {"text": "Theorems: a failing tx yields the pre-state or the pre-state with bumped sequences (enumerating ante rejection and every handler failure); every handler and the EndBlocker commute with replacing the sequence numbers, hence within a block every other transaction gets the same result and the block commits the same state (field by field, sequence numbers apart), the same updates and the same CometBFT sets with or without the failing tx. Atomicity is BaseApp's: assumed in the model's deliver_tx and validated by twin execution with per-module store hashes.", "note": _NOTE + " Partial by nature: the rollback mechanism lives in the SDK.", "technique": "Coq proof over the model's tx wrapper + twin execution (translation validation of atomicity)"},
     "C07": {"text": "Theorems over message trees of unbounded depth/fan-out (nested induction): the staking filter rejects exactly the transactions containing a forbidden message through any carrier; tied to the running decorator by differential execution on random trees and to the app's registry by census.", "note": _NOTE, "technique": "Coq proof by nested induction over rose trees + differential testing of the model against the Go decorator"},
     "C08": {"text": "Same theorems for the withdraw-delegator-reward filter.", "note": _NOTE, "technique": "Coq proof by nested induction over rose trees + differential testing of the model against the Go decorator"},
     "C09": {"text": "Theorems: the commission decorator accepts iff every rate-setting message at any depth is in [floor,ceil], never panics, exempts genesis exactly when validation is off.", "note": _NOTE, "technique": "Coq proof (tree induction, lia over scaled decimals) + differential testing against the Go decorator"},
-    "C10": {"text": "Theorems: create appends exactly the application, remove-pending deletes the first match, both preserve pairwise-distinct operators/consensus keys across pending and validators; monitor refines the pending query against the history's applications.", "note": _NOTE, "technique": "Coq proof (list/gmap invariants) + differential testing against the real SimApp"},
-    "C11": {"text": "Theorems: every PoA message ends with the bonded pool = bonded validators' tokens, not-bonded pool untouched, supply delta = pool delta; in every reachable state (induction over histories incl. slashing, EndBlocker transfers, maturity) bonded pool = sum of tokens of Bonded validators and the not-bonded pool covers the others, so no transfer, burn or slash is ever short of funds. Monitors: pools vs token sums, supply outside pools constant.", "note": _NOTE + " x/mint is not modelled (inflation 0 in the harness).", "technique": "Coq proof + differential testing against the real SimApp"},
+    "C10": {"text": "Theorems: create appends exactly the application, remove-pending deletes the first match, both preserve pairwise-distinct operators/consensus keys across pending and validators; in every reachable state operators and consensus keys are pairwise distinct across applications and validator records; the pending list after any history is the in-order replay of the messages of the transactions that passed (create appends, SetPower / RemovePending delete the operator's first entry), nothing else touches it. Monitor refines the pending query against the history's applications.", "note": _NOTE, "technique": "Coq proof (list/gmap invariants) + differential testing against the real SimApp"},
+    "C11": {"text": "Theorems: every PoA message ends with the bonded pool = bonded validators' tokens, not-bonded pool untouched, supply delta = pool delta; in every reachable state (induction over histories incl. slashing, EndBlocker transfers, maturity) bonded pool = sum of tokens of Bonded validators and the not-bonded pool covers the others, so no transfer, burn or slash is ever short of funds; after every history supply = what the accounts held at genesis + the two pools (nobody outside the pools is ever credited or debited). Monitors: pools vs token sums, supply outside pools constant.", "note": _NOTE + " x/mint is not modelled (inflation 0 in the harness).", "technique": "Coq proof + differential testing against the real SimApp"},
     "C12": {"text": "Theorem: a run cut at any commit boundary and continued from the persisted world equals the uncut run (the model has no hidden memory). That the code has none is validated: second node, never-queried node, node restarted from its database at random boundaries, byte-equal AppHash/results/updates.", "note": _NOTE + " Partial by nature: process memory and iteration order are runtime facts.", "technique": "Coq proof of run composition + restart/duplicate execution (translation validation of determinism)"},
-    "C13": {"text": "Theorems: SetPower on a jailed / non-bonded validator and removal of a non-bonded one fail cleanly; in every reachable state a jailed validator owns no index entry, has no last power and its key is absent from CometBFT's set (any max_validators); every member's power is its token power (tokens less slashes); the index is complete for unjailed validators with power, so an unjailed or re-powered validator is seen by the next EndBlocker; queue and records agree, slashes never lack funds. Monitors: jailed not in next set, jailed flag cleared only by a successful unjail, unjail power, decreases only with cause.", "note": _NOTE, "technique": "Coq proof + differential testing with downtime patterns against the real SimApp"},
-    "C14": {"text": "Theorems over all 64-bit powers: accepted iff 10^6 <= p <= 2^63-1, exact token/share/power conversion, same-power rejection; float64 absolute difference exact below 2^53.", "note": _NOTE, "technique": "Coq proof (lia / Z.div over unbounded Z with explicit 64-bit casts) + differential testing"},
+    "C13": {"text": "Theorems: SetPower on a jailed / non-bonded validator and removal of a non-bonded one fail cleanly; in every reachable state a jailed validator owns no index entry, has no last power and its key is absent from CometBFT's set (any max_validators); every member's power is its token power (tokens less slashes); the index is complete for unjailed validators with power, so an unjailed or re-powered validator is seen by the next EndBlocker; queue and records agree, slashes never lack funds; double-sign evidence (x/evidence's handler is in the model) leaves the validator jailed and tombstoned with no more tokens and touches nobody else, is ignored exactly for unbonded / stale / already tombstoned targets, and a tombstoned validator cannot unjail nor a jailed one be re-powered; history level: through any blocks carrying no SetPower / RemoveValidator / Unjail naming it a validator keeps its stake and (cap not binding) its power unless slashing jailed it on the way. Monitors: jailed not in next set, jailed flag cleared only by a successful unjail, unjail power, decreases only with cause (downtime, double sign, admin, own removal, cap), a double signer ends its block jailed.", "note": _NOTE, "technique": "Coq proof + differential testing with downtime patterns against the real SimApp"},
+    "C14": {"text": "Theorems over all 64-bit powers: accepted iff 10^6 <= p <= 2^63-1, exact token/share/power conversion, same-power rejection; the float64 step uint64(math.Abs(float64(d))) is proved exact for |d| < 2^53 against Flocq's IEEE 754 binary64, and the differences the code forms are below 2^53 (these two theorems depend on the standard library's real-number axioms sig_forall_dec, sig_not_dec, functional_extensionality_dep, classic; all others are closed under the global context).", "note": _NOTE, "technique": "Coq proof (lia / Z.div over unbounded Z with explicit 64-bit casts) + differential testing"},
     "C15": {"text": "Theorem: poa Validate = stakingtypes Validate for any value >= msd >= 1 (incl. error and crash cases); rule set spelled out; three-way differential against both Go implementations.", "note": _NOTE, "technique": "Coq proof of rule equivalence + three-way differential testing"},
     "C16": {"text": "Theorems: a successful update sets exactly the six fields and nothing else; invalid tuples (x/staking's Validate) are refused; validity spelled out.", "note": _NOTE, "technique": "Coq proof + differential testing against stakingtypes.Params.Validate and the real SimApp"},
     "C17": {"text": "Theorems: both conversions are the identity on every listed field (commission update time excepted), lists keep order; Go converters, pending store and genesis export/import exercised on random fully populated records; field census by Tie/Census.v.", "note": _NOTE, "technique": "Coq proof (record extensionality) + round-trip testing through the real codec and genesis path"},
